@@ -57,6 +57,12 @@ func c14Rec(name string, args ...string) string {
 	return name + "(" + strings.Join(args, ",") + ")"
 }
 
+// c14Greeter: *c14Greeter has the methods Alias (pointer receiver) and Greet; c14Greeter only Greet
+type c14Greeter struct{}
+
+func (g *c14Greeter) Alias(n string) string { return "alias:" + n }
+func (g c14Greeter) Greet(n string) string  { return "greet:" + n }
+
 type c14Label string
 type c14Dur int64
 
@@ -125,6 +131,8 @@ func c14Init() {
 			r.Write([]byte("[" + strings.Join(parts, ",") + "]"))
 		}))
 	})
+	s.AddGlobal("greeter", c14Greeter{}).AddGlobal("pgreeter", &c14Greeter{})
+	s.AddGlobal("anyint", func() interface{} { return 3 })
 	// conversion targets
 	s.AddGlobal("cvint", func(i int) string { return fmt.Sprint(i) })
 	s.AddGlobal("cvfloat64", func(f float64) string { return fmt.Sprint(f) })
@@ -446,6 +454,27 @@ func c14Tables(v *c14Vec) Result {
 		out, err := c14Render(e[0])
 		if err != nil || out != e[1] {
 			return Result{Sig: map[string]interface{}{"kind": "lazy-arguments"}, Observed: out, Expected: e[1], Key: "tables",
+				Detail: fmt.Sprintf("%s rendered %q (err %v), want %q", e[0], out, err, e[1])}
+		}
+	}
+	// a method called on a pointer, then the same method on a plain value of the type (the method sets differ), and back
+	for round, src := range []string{`{{ pgreeter.Greet("bob") }}`, `{{ greeter.Greet("bob") }}`, `{{ "bob" | greeter.Greet }}`, `{{ pgreeter.Greet("bob") }}`, `{{ pgreeter.Alias("bob") }}`} {
+		want := "greet:bob"
+		if round == 4 {
+			want = "alias:bob"
+		}
+		out, err := c14Render(src)
+		if err != nil || out != want {
+			return Result{Sig: map[string]interface{}{"kind": "method-after-pointer"}, Observed: out, Expected: want, Key: "tables",
+				Detail: fmt.Sprintf("step %d: %s rendered %q (err %v), want %q", round, src, out, err, want)}
+		}
+	}
+	// arguments that are results of functions declared to return interface{}: a jet.Func reading them with ParseInto gets
+	// the value held (a reflected function with a concrete parameter type refuses them; the property is silent there)
+	for _, e := range [][2]string{{`{{ range ints(0, anyint()) }}[{{ . }}]{{ end }}`, "[0][1][2]"}} {
+		out, err := c14Render(e[0])
+		if err != nil || out != e[1] {
+			return Result{Sig: map[string]interface{}{"kind": "interface-typed-argument"}, Observed: out, Expected: e[1], Key: "tables",
 				Detail: fmt.Sprintf("%s rendered %q (err %v), want %q", e[0], out, err, e[1])}
 		}
 	}
